@@ -605,8 +605,18 @@ def _restore(P, history):
     return P
 
 
-def find_failing_input(ctx, sdrv, P, mode, seed, kind):
-    """Independent of the model: the engine's probabilities for this program / call sequence against `Sem`."""
+def _with_history(c, P):
+    """The candidate program with the calls of P's history that survive (same order)."""
+    qs = set(c["queries"])
+    ev = {a: v for a, v in c["evidence"]}
+    c = dict(c)
+    c["history"] = [(l, a) for l, a in P.get("history", [])
+                    if (l == "query" and a in qs) or (l != "query" and ev.get(a) == (l == "evidence+"))]
+    return c
+
+
+def _check_sem(ctx, sdrv, P, mode, seed, kind):
+    """(Q, [(what, signature)]): the engine's probabilities for this program / call sequence against `Sem`."""
     if mode == "history":
         qs = []
         for l, a in P["history"]:
@@ -621,11 +631,43 @@ def find_failing_input(ctx, sdrv, P, mode, seed, kind):
         run = ("error", ("ground", R["error"][0], R["error"][1]))
     else:
         run = R["probs"]
-    for what, sig in semcheck.compare(Q, sem, run, "ground-%s" % kind, ctx):
-        ctx.fail(what + " | program: " + spine.to_src(Q).replace("\n", " "),
-                 {"program": Q, "src": spine.to_src(Q), "tag": "ground-" + kind, "mode": mode, "sched_seed": seed,
-                  "history": P.get("history")}, sig)
+    return Q, semcheck.compare(Q, sem, run, "ground-%s" % kind, ctx)
+
+
+def find_failing_input(ctx, sdrv, P, mode, seed, kind):
+    """Independent of the model: compare the engine with the specification on this input; shrink a failure."""
+    Q, bad = _check_sem(ctx, sdrv, P, mode, seed, kind)
+    for what, sig in bad:
+        small = P
+        if getattr(ctx, "_ground_nshrunk", 0) < 2 and ctx.known_match(sig) is None:
+            ctx._ground_nshrunk = getattr(ctx, "_ground_nshrunk", 0) + 1
+            from props.c01 import shrink_program
+
+            def still(c):
+                c = _with_history(c, P)
+                if mode == "history" and not c["history"]:
+                    return False
+                return any(semcheck.same_failure(s2, sig) for _, s2 in _check_sem(ctx, sdrv, c, mode, seed, kind)[1])
+            try:
+                small = _with_history(shrink_program(P, still), P)
+            except Exception:
+                small = P
+        Qs = _check_sem(ctx, sdrv, small, mode, seed, kind)[0] if small is not P else Q
+        ctx.fail(what + " | program: " + spine.to_src(Qs).replace("\n", " "),
+                 {"program": Qs, "src": spine.to_src(Qs), "tag": "ground-" + kind, "mode": mode, "sched_seed": seed,
+                  "history": small.get("history")}, sig)
         break
+
+
+def is_ground_replay(ctx):
+    """--replay of a failing input that this phase produced (tag ground-*)."""
+    if not ctx.replay_in:
+        return False
+    import json
+    try:
+        return str(json.load(open(ctx.replay_in)).get("replay", {}).get("tag", "")).startswith("ground-")
+    except Exception:
+        return False
 
 
 def guarded(ctx, kind, nq, nt):
